@@ -732,6 +732,7 @@ func account(c *maskCase, st pathStats) {
 func TestMask(t *testing.T) {
 	rapid.Check(t, func(rt *rapid.T) {
 		c, st := genMaskCase(rt)
+		flushExcl()
 		if _, err := descriptor(c.IDL, c.Root); err != nil {
 			vt.Class("harness_schema_rejected")
 			rt.Fatalf("harness: generated schema rejected: %v\n%s", err, c.IDL)
@@ -747,6 +748,7 @@ func TestMask(t *testing.T) {
 func TestSoup(t *testing.T) {
 	rapid.Check(t, func(rt *rapid.T) {
 		c := genSoupCase(rt)
+		flushExcl()
 		if _, err := descriptor(c.IDL, c.Root); err != nil {
 			vt.Class("harness_schema_rejected")
 			rt.Fatalf("harness: generated schema rejected: %v\n%s", err, c.IDL)
@@ -769,6 +771,7 @@ func TestSoup(t *testing.T) {
 func TestJSON(t *testing.T) {
 	rapid.Check(t, func(rt *rapid.T) {
 		c := genJSONCase(rt)
+		flushExcl()
 		vt.Eval()
 		vt.Class("json:" + c.Class)
 		if len(c.Doc) > 40 {
